@@ -4,7 +4,7 @@ Some simple comparison expression normalization functions.
 import socket
 
 from stix2.equivalence.pattern.compare.comparison import (
-    object_path_to_raw_values,
+    ANY_INDEX, object_path_to_raw_values,
 )
 from stix2.patterns import StringConstant
 
@@ -21,7 +21,7 @@ def _path_is(object_path, path_pattern):
     equality: it supports some simple wildcards.
 
     The path pattern must be an iterable of values: strings for key path steps,
-    ints or "*" for index path steps, or wildcards.  Exact matches are required
+    ints or ANY_INDEX for index path steps, or wildcards.  Exact matches are required
     for non-wildcards in the pattern.  For the wildcards, _ANY_IDX matches any
     index path step; _ANY_KEY matches any key path step, and _ANY matches any
     path step.
@@ -53,7 +53,7 @@ def _path_is(object_path, path_pattern):
             break
 
         elif patt_val is _ANY_IDX:
-            if not isinstance(path_val, int) and path_val != "*":
+            if not isinstance(path_val, int) and path_val is not ANY_INDEX:
                 result = False
                 break
 
